@@ -22,7 +22,8 @@ pending = json.load(open(os.path.join(HERE, "pending.json"))) if os.path.exists(
 for pid in ALL:
     p = os.path.join(HERE, "props", pid + ".py")
     c = consts(p) if os.path.exists(p) else {}
-    if not c.get("READY", False):
+    approved = json.load(open(os.path.join(HERE, "approved.json")))
+    if not c.get("READY", False) or pid not in approved:
         na.append({"property_id": pid, "reason": pending.get(pid, "check not built yet in this round; the design (DESIGN.md section 8) applies the same technique to it")})
         continue
     checks.append({
